@@ -23,6 +23,9 @@ def units(tier):
     us += func_units("pyrtcm.rtcmmessage.RTCMMessage.__init__", tier)
     from pyvc import clientrun
     us.append(clientrun.unit("parse_ignores_checksum_when_not_validating", clientrun.lemma_validate_off))
+    from spec import api
+    from props.common import ground_unit as _gu
+    us.append(_gu("api.signatures", api.signature_lemmas(['pyrtcm.rtcmreader.RTCMReader.parse', 'pyrtcm.rtcmmessage.RTCMMessage.__init__', 'pyrtcm.rtcmreader.RTCMReader.__init__'])))
     return us
 
 
